@@ -380,18 +380,31 @@ def stream_canon(ctx, n):
 
 
 def stream_objects(ctx, n):
-    """Signable.signable_bytes of real objects vs the model's canonical bytes of attr.asdict"""
+    """Signable.signable_bytes of real objects vs the model's canonical bytes of attr.asdict; and the content-only
+    clause on the implementation: the same content supplied with every dict in another insertion order gives the
+    same canonical bytes and the same DSSE payload / PAE"""
     import attr
+    import copy as _copy
+    from in_toto.models.metadata import Envelope
     rng = ctx.rng
-    vals, impl = [], []
+    vals, impl, order_viol = [], [], []
     for i in range(n):
         o = rand_link(rng) if rng.random() < 0.5 else rand_layout(rng, POOL["ed25519"])
-        vals.append(attr.asdict(o))
+        d = attr.asdict(o)
+        vals.append(d)
         try:
             impl.append({"ok": latin(o.signable_bytes)})
         except Exception as e:  # noqa
             impl.append({"err": exc_class(e)})
-    return vals, impl
+        try:
+            twin = type(o).read(shuffle_deep(rng, _copy.deepcopy(d)))
+            if twin.signable_bytes != o.signable_bytes:
+                order_viol.append(("signable_bytes depend on the order in which dict entries were supplied", d))
+            if Envelope.from_signable(twin).pae() != Envelope.from_signable(o).pae():
+                order_viol.append(("DSSE payload / PAE depend on the order in which dict entries were supplied", d))
+        except Exception as e:  # noqa
+            order_viol.append(("re-reading attr.asdict of an object failed: %s" % type(e).__name__, d))
+    return vals, impl, order_viol
 
 
 # (b) PAE
@@ -683,6 +696,18 @@ def stream_files(ctx, F, n_files, n_sweep, families, use_gpg):
                 e = copy.deepcopy(fj)
                 del e["signatures"][i]
                 edits.append(("sig-removed", e, False, i))
+                e = copy.deepcopy(fj)
+                del e["signatures"][i][sig_field(e["signatures"][i])]
+                edits.append(("sig-value-field-removed", e, False, i))
+                e = copy.deepcopy(fj)
+                del e["signatures"][i]["keyid"]
+                edits.append(("sig-keyid-field-removed", e, False, i))
+                if "sig" in fj["signatures"][i]:
+                    e = copy.deepcopy(fj)                     # an sslib entry dressed up as a gpg entry
+                    e["signatures"][i]["signature"] = e["signatures"][i]["sig"]
+                    e["signatures"][i]["other_headers"] = "04000108"
+                    # DSSE keeps unrecognised fields of an entry aside: key id and value are untouched there
+                    edits.append(("sig-family-confusion", e, False, None if dsse else i))
             if sweep:
                 st["sweep_files"] += 1
                 st["sweep_leaves"] += len(paths)
@@ -702,6 +727,8 @@ def stream_files(ctx, F, n_files, n_sweep, families, use_gpg):
                             oracle_viol.append(("%s: file whose re-parsed content differs from the signed content still verifies" % kind, text))
                         else:
                             st["edits_accepted_normalised"] += 1
+                            nk = st.setdefault("normalised_by_kind", {})
+                            nk[kind] = nk.get(kind, 0) + 1
                     if sig_i is not None and sig_i in accepted and sig_i < len(signers) and not dup_signers:
                         # the signature entry of signer sig_i was changed/removed: only acceptable if another valid
                         # entry by the same key exists (never generated here)
@@ -978,7 +1005,7 @@ def run(ctx):
 
     # (a) (b)
     vals, impl_c = stream_canon(ctx, 12000 if thorough else 2500)
-    ovals, impl_o = stream_objects(ctx, 1500 if thorough else 300)
+    ovals, impl_o, order_viol = stream_objects(ctx, 1500 if thorough else 300)
     preqs, impl_p = stream_pae(ctx, 1500 if thorough else 300)
     ans = model.batch([("canon", v) for v in vals + ovals] + [("pae", r) for r in preqs])
     impl_all = impl_c + impl_o + impl_p
@@ -990,6 +1017,9 @@ def run(ctx):
         kind, v = inputs[i]
         ctx.violation("%s bytes: implementation %s, model %s" % (kind, _short(impl_all[i]), _short(ans[i])),
                       {"kind": kind, "value_json": json.dumps(v, ensure_ascii=True)})
+        violations += 1
+    for what, d in order_viol[:2]:
+        ctx.violation("property oracle: " + what, {"kind": "signable_bytes", "value_json": json.dumps(d, ensure_ascii=True)})
         violations += 1
     canon_stats = {
         "values": len(vals), "objects": len(ovals), "pae": len(preqs),
@@ -1038,6 +1068,8 @@ def run(ctx):
         if gpg:
             gpg.close()
     cans = model.batch([(s["op"], s["req"]) for s in cli_steps])
+    kn3, kok3, kdetail3 = core.kernel_sample(ctx, model, limit_chars=60000, max_cases=6)
+    ctx.oblige("kernel-vs-extraction-sample(cli)", kok3, kdetail3)
     for s, a in zip(cli_steps, cans):
         d = compare_cli(s, a, fam_of_keyid)
         s["model"] = a
@@ -1075,7 +1107,7 @@ def run(ctx):
             "libraries (for every real signature: key, value and the exact bytes it was made over)",
             "hand model of securesystemslib code outside /repo: encode_canonical, dsse.Envelope (pae, sign, verify, to_dict, from_dict), "
             "Signature.to_dict, key-dict shapes",
-            "extraction + driver; %d+%d requests re-evaluated by vm_compute in coqc" % (kn, kn2)],
+            "extraction + driver; %d+%d+%d requests re-evaluated by vm_compute in coqc" % (kn, kn2, kn3)],
         "evaluations": evaluations, "distinct_nontrivial": distinct,
         "rule": "(a) random JSON: nesting to depth 120, BMP/astral text, quotes, backslashes, controls, lone surrogates, ints to 4299 digits, "
                 "bool next to 0/1, None, floats, up to 120 keys in random insertion order + re-shuffled copies; random Link/Layout objects with "
@@ -1086,11 +1118,11 @@ def run(ctx):
                 "re-parsed attr.asdict, exit status, written file",
         "samples": [{"canon_value": vals[0]}, {"file_case": {"tag": F.cases[0]["tag"], "file": F.cases[0]["req"]["file"]}} if F.cases else {},
                     {"cli_events": specs[0]["events"]} if specs else {}],
-        "programs": 1, "mismatches": len(mism_a) + len(file_mism) + len(cli_mism), "property_oracle_violations": len(oracle_viol),
+        "programs": 1, "mismatches": len(mism_a) + len(file_mism) + len(cli_mism), "property_oracle_violations": len(oracle_viol) + len(order_viol),
         "canon": canon_stats, "files": fst, "file_requests": len(F.cases), "file_unmodelled_skipped": unmodelled,
         "file_tags": _count(c["tag"].split(":")[0] for c in F.cases),
         "impl_verdicts": _count(v for c in F.cases for v in c["impl"].get("verify", ["load_err"])),
-        "cli": cli_stats, "kernel_sample_cases": kn + kn2, "families": sorted(set(families)),
+        "cli": cli_stats, "kernel_sample_cases": kn + kn2 + kn3, "families": sorted(set(families)),
         "wall_streams_s": round(time.time() - t_start, 1),
     }
     return core.finish(ctx, "proof", cov, [
